@@ -99,9 +99,21 @@ class Check:
 
         self.correspondences.add(corr)
         lines = [impl.enc_case(c.op, c.args) for c in cases]
-        model = self.driver.run(lines, [c.group for c in cases])
+        # for the two verifiers where several rejection reasons can hold at once the model is also asked for the *set* of applicable
+        # rejection classes (Model/Reasons.lean; C13.verifyRoot_reports_applicable / verifyDelegation_reports_applicable): the request
+        # follows the verdict request directly so that both share the driver's signature memo
+        REASON_OPS = {"vroot": "vrootR", "vdeleg": "vdelegR"}
+        wire, groups, slot = [], [], []
+        for c, line in zip(cases, lines):
+            slot.append(len(wire))
+            wire.append(line); groups.append(c.group)
+            if c.op in REASON_OPS:
+                wire.append(REASON_OPS[c.op] + line[len(c.op):]); groups.append(c.group)
+        answers = self.driver.run(wire, groups)
+        model = [answers[k] for k in slot]
+        reasons = [self._reason_set(answers[k + 1]) if c.op in REASON_OPS else None for c, k in zip(cases, slot)]
         out = []
-        for c, line, m in zip(cases, lines, model):
+        for c, line, m, rs in zip(cases, lines, model, reasons):
             try:
                 i = impl.run_case(c.op, c.args, c.enc)
             except Exception as e:  # harness problem, not the library's
@@ -116,10 +128,26 @@ class Check:
                 # both reject, with different classes: harmless when several rejection reasons apply and the implementation reports
                 # another applicable one (independent checks re-ordered); the property oracle still judges the class itself
                 from . import schema
-                acc = schema.acceptable_outcomes(c.op, c.args)
+                acc = rs if rs is not None else schema.acceptable_outcomes(c.op, c.args)
                 if acc is not None and i in acc and m in acc:
                     self.benign += 1
                     ok = True
+            if rs is not None:
+                # the model's verdict must be consistent with its own reason set (proved; checked here as a test of the driver), and the
+                # reason set must agree with the independent oracle written from the property texts
+                from . import schema
+                self.count("reasons:" + (",".join(sorted(x[2:] for x in rs)) if rs != {"OK"} else "none"))
+                if m not in rs:
+                    self.notes.append(f"model verdict {m} outside its reason set {sorted(rs)} on {short(line, 200)}")
+                    ok = False
+                want = schema.acceptable_outcomes(c.op, c.args)
+                if want is not None and want != rs:
+                    self.correspondences.add("corr:reason-sets/model-vs-oracle")
+                    kind = repr(("corr:reason-sets/model-vs-oracle", sorted(want), sorted(rs), c.tag))
+                    self.mismatch_kinds[kind] = self.mismatch_kinds.get(kind, 0) + 1
+                    self.mismatch_total += 1
+                    if self.mismatch_kinds[kind] <= 3:
+                        self.mismatches.append({"corr": "corr:reason-sets/model-vs-oracle", "line": line, "oracle": sorted(want), "model": sorted(rs), "tag": c.tag})
             if m.startswith("X ") or i.startswith("X "):
                 self.notes.append(f"protocol problem on {short(line, 200)}: impl={short(i, 80)} model={short(m, 80)}")
                 ok = False
@@ -135,6 +163,14 @@ class Check:
             if len(self.samples) < 6 and self.rng.random() < 0.02:
                 self.samples.append({"request": short(line, 400), "implementation": short(i, 120), "model": short(m, 120)})
         return out
+
+    @staticmethod
+    def _reason_set(ans: str):
+        """`R A,B` -> {"E A", "E B"}; `R` (no reason applies) -> {"OK"}; anything else -> None"""
+        if not ans.startswith("R"):
+            return None
+        names = [x for x in ans[1:].strip().split(",") if x]
+        return {"E " + x for x in names} or {"OK"}
 
     def nontrivial_add(self, key):
         self.nontrivial.add(key)
